@@ -76,6 +76,8 @@ def cases(tier, seed=0):
   cs += _ea.surplus_cases('DL_POLY_EAM_fs', tier)
   cs += _ea.after_failure_cases('DL_POLY_EAM', tier)
   cs += _ea.after_failure_cases('DL_POLY_EAM_fs', tier)
+  cs += _ea.shared_and_undeclared_cases('DL_POLY_EAM', tier)
+  cs += _ea.shared_and_undeclared_cases('DL_POLY_EAM_fs', tier)
   return cs
 
 
